@@ -60,7 +60,7 @@ def run(ctx, model_available=True):
     from props.sleepgen import gen_sleep_history
 
     rng = rng_for(ctx.seed, "C12gen")
-    hs = product_histories(ctx) + [gen_sleep_history(rng, False) for _ in range(ctx.budget(200, 4000))]
+    hs = product_histories(ctx) + [gen_sleep_history(rng, i % 2 == 1) for i in range(ctx.budget(300, 5000))]
     # commands held before the gateway's version is known (registry restored from persistence),
     # then the version arrives (possibly more than once), then the node wakes
     for v, sig, pl in (("2.0", 22, "0"), ("2.1", 22, "5"), ("2.2", 32, ""), ("2.2.0", 32, "")):
